@@ -225,67 +225,144 @@ Proof.
   split; intro H; nra.
 Qed.
 
-(* dt0 is strictly positive exactly when the norm of u0 is *)
-Theorem dt0_positive_iff_norm_positive :
+(* ---- the repaired dt0 (guard norm_y0 < 1e-5 -> 1e-6) ---- *)
+(* what the guard does: below the threshold the proposal is the constant 1e-6,
+   at or above it the quotient of the pre-fix formula *)
+Theorem dt0_guard_value :
+  forall f nrm scale nugget t u0,
+    (nrm u0 < lit_1em5 ->
+       dt0_simple_branch nrm u0 = true /\
+       dt0_simple f nrm scale nugget t u0 = Some lit_1em6) /\
+    (lit_1em5 <= nrm u0 -> ~ nrm (f t u0) + nugget == 0 ->
+       dt0_simple_branch nrm u0 = false /\
+       dt0_simple f nrm scale nugget t u0 = Some (dt0_unguarded f nrm scale nugget t u0)).
+Proof.
+  intros f nrm scale nugget t u0. unfold dt0_simple, dt0_simple_branch, dt0_unguarded.
+  split.
+  - intro H. apply s_ltb_true in H. rewrite H. auto.
+  - intros H Hd. apply s_ltb_false in H. rewrite H.
+    destruct (Qeq_bool (nrm (f t u0) + nugget) 0) eqn:E; auto.
+    apply Qeq_bool_iff in E. contradiction.
+Qed.
+
+(* T18.3: the proposal exists and is strictly positive as soon as scale > 0
+   and the denominator |f0| + nugget is positive -- no condition on u0, no
+   contract on the norm of u0 *)
+Theorem dt0_positive :
+  forall f nrm scale nugget t u0,
+    0 < scale -> 0 < nrm (f t u0) + nugget ->
+    exists h, dt0_simple f nrm scale nugget t u0 = Some h /\ 0 < h.
+Proof.
+  intros f nrm scale nugget t u0 Hs Hd. unfold dt0_simple.
+  destruct (s_ltb (nrm u0) lit_1em5) eqn:Hb.
+  - exists lit_1em6. split; reflexivity.
+  - apply s_ltb_false in Hb. unfold lit_1em5 in Hb.
+    destruct (Qeq_bool (nrm (f t u0) + nugget) 0) eqn:E.
+    + apply Qeq_bool_iff in E. lra.
+    + eexists. split; [reflexivity|]. apply quotient_sign; lra.
+Qed.
+
+(* the usual reading: nugget > 0 and a non-negative norm of f0 *)
+Corollary dt0_positive_nugget :
   forall f nrm scale nugget t u0,
     0 < scale -> 0 < nugget -> 0 <= nrm (f t u0) ->
-    (0 < dt0_simple f nrm scale nugget t u0 <-> 0 < nrm u0).
+    exists h, dt0_simple f nrm scale nugget t u0 = Some h /\ 0 < h.
 Proof.
-  intros f nrm scale nugget t u0 Hs Hn H1. unfold dt0_simple.
+  intros. apply dt0_positive; auto. lra.
+Qed.
+
+(* in particular at u0 = 0 (norm oracle exact at u0): 1e-6 *)
+Theorem dt0_at_zero_u0 :
+  forall f nrm scale nugget t u0,
+    is_norm (nrm u0) u0 -> Forall (fun x => x == 0) u0 ->
+    dt0_simple f nrm scale nugget t u0 = Some lit_1em6.
+Proof.
+  intros f nrm scale nugget t u0 [Hd Hsq] Hz.
+  apply dt0_guard_value. apply norm_sq_zero_iff in Hz. unfold lit_1em5. nra.
+Qed.
+
+(* nugget > 0 cannot be dropped: with nugget = 0 and f(u0) = 0 the selected
+   branch divides by zero *)
+Theorem dt0_undefined_for_zero_denominator :
+  exists (f : Q -> list Q -> list Q) (nrm : list Q -> Q) (scale nugget t : Q) (u0 : list Q),
+    is_norm (nrm u0) u0 /\ is_norm (nrm (f t u0)) (f t u0) /\
+    0 < scale /\ nugget == 0 /\
+    dt0_simple f nrm scale nugget t u0 = None.
+Proof.
+  exists (fun _ _ => [0]), (table_norm [([1], 1); ([0], 0)] 0), (1 # 100), 0, 0, [1].
+  repeat split; try (vm_compute; reflexivity); vm_compute; discriminate.
+Qed.
+
+(* ---- the formula before the repair (documentation of finding F6) ---- *)
+(* the unguarded quotient is strictly positive exactly when the norm of u0 is *)
+Theorem dt0_unguarded_positive_iff_norm_positive :
+  forall f nrm scale nugget t u0,
+    0 < scale -> 0 < nugget -> 0 <= nrm (f t u0) ->
+    (0 < dt0_unguarded f nrm scale nugget t u0 <-> 0 < nrm u0).
+Proof.
+  intros f nrm scale nugget t u0 Hs Hn H1. unfold dt0_unguarded.
   apply quotient_sign; lra.
 Qed.
 
 (* ... i.e. (for a norm oracle that is right at u0) exactly when u0 <> 0 *)
-Theorem dt0_positive_iff :
+Theorem dt0_unguarded_positive_iff :
   forall f nrm scale nugget t u0,
     0 < scale -> 0 < nugget ->
     is_norm (nrm u0) u0 -> is_norm (nrm (f t u0)) (f t u0) ->
-    (0 < dt0_simple f nrm scale nugget t u0 <-> ~ Forall (fun x => x == 0) u0).
+    (0 < dt0_unguarded f nrm scale nugget t u0 <-> ~ Forall (fun x => x == 0) u0).
 Proof.
   intros f nrm scale nugget t u0 Hs Hn H0 H1.
-  rewrite dt0_positive_iff_norm_positive; auto; [|apply H1].
+  rewrite dt0_unguarded_positive_iff_norm_positive; auto; [|apply H1].
   apply is_norm_pos_iff; auto.
 Qed.
 
-(* for EVERY vector field, the proposal at u0 = 0 is exactly 0 *)
-Theorem dt0_zero_at_zero_u0 :
+(* for EVERY vector field, the unguarded proposal at u0 = 0 was exactly 0 *)
+Theorem dt0_unguarded_zero_at_zero_u0 :
   forall f nrm scale nugget t u0,
     0 < scale -> 0 < nugget ->
     is_norm (nrm u0) u0 -> is_norm (nrm (f t u0)) (f t u0) ->
     Forall (fun x => x == 0) u0 ->
-    dt0_simple f nrm scale nugget t u0 == 0.
+    dt0_unguarded f nrm scale nugget t u0 == 0.
 Proof.
-  intros f nrm scale nugget t u0 Hs Hn H0 H1 Hz. unfold dt0_simple.
+  intros f nrm scale nugget t u0 Hs Hn H0 H1 Hz. unfold dt0_unguarded.
   destruct H1 as [H1 _]. apply quotient_zero; try lra.
   destruct H0 as [Hd Hsq]. apply norm_sq_zero_iff in Hz. nra.
 Qed.
 
-(* the property "dt0 > 0 for every initial value" is refuted *)
-Theorem dt0_positive_refuted :
+(* "the unguarded dt0 is > 0 for every initial value" is refuted; on the same
+   witness the repaired dt0 returns 1e-6 *)
+Theorem dt0_unguarded_positive_refuted :
   exists f nrm t u0,
     is_norm (nrm u0) u0 /\ is_norm (nrm (f t u0)) (f t u0) /\
     ~ Forall (fun x => x == 0) (f t u0) /\
-    dt0_simple f nrm dt0_default_scale dt0_default_nugget t u0 == 0.
+    dt0_unguarded f nrm dt0_default_scale dt0_default_nugget t u0 == 0 /\
+    dt0_simple f nrm dt0_default_scale dt0_default_nugget t u0 = Some lit_1em6.
 Proof.
   exists (fun _ _ => [3; 4]), (table_norm [([0; 0], 0); ([3; 4], 5)] 1), 0, [0; 0].
-  split; [|split; [|split]].
+  split; [|split; [|split; [|split]]].
   - split; vm_compute; [discriminate | reflexivity].
   - split; vm_compute; [discriminate | reflexivity].
   - intro H. inversion H; subst. vm_compute in H2. discriminate.
   - vm_compute. reflexivity.
+  - vm_compute. reflexivity.
 Qed.
 
 (* a concrete non-trivial instance: u0 = (3,4), f(u0) = (-1, 3/4):
-   dt0 = 0.01 * 5 / (5/4 + 1e-5) = 5000/125001 *)
+   dt0 = 0.01 * 5 / (5/4 + 1e-5) = 5000/125001 (guard not taken) *)
 Example dt0_example :
   let f := fun (_ : Q) (y : list Q) =>
              match y with [a; b] => [-(1#4) * b; (1#4) * a] | _ => [] end in
   let nrm := table_norm [([3; 4], 5); ([-1; 3#4], 5#4)] 0 in
   is_norm (nrm [3; 4]) [3; 4] /\ is_norm (nrm (f 0 [3; 4])) (f 0 [3; 4]) /\
-  dt0_simple f nrm dt0_default_scale dt0_default_nugget 0 [3; 4] == 5000 # 125001 /\
-  0 < dt0_simple f nrm dt0_default_scale dt0_default_nugget 0 [3; 4].
+  dt0_simple_branch nrm [3; 4] = false /\
+  exists h, dt0_simple f nrm dt0_default_scale dt0_default_nugget 0 [3; 4] = Some h /\
+            h == 5000 # 125001 /\ 0 < h.
 Proof.
-  cbv zeta. repeat split; vm_compute; try reflexivity; discriminate.
+  cbv zeta. split; [|split; [|split]].
+  - split; vm_compute; [discriminate | reflexivity].
+  - split; vm_compute; [discriminate | reflexivity].
+  - vm_compute. reflexivity.
+  - eexists. split; [vm_compute; reflexivity|]. split; vm_compute; reflexivity.
 Qed.
 
 (* ===================================================================== T18.2 *)
